@@ -938,3 +938,16 @@ clone("C20-r6-tracer-warning-labelled-info", "C20", "r7-tracer-warning-level", "
 mut("C04", "r13-int-getter-keeps-stale-value", "config/get.go",
     "\t\t\tif valueCache != nil {\n\t\t\t\tvalue = valueCache.intVal\n\t\t\t} else {\n\t\t\t\tvalue = fallback\n\t\t\t}", "\t\t\tif valueCache != nil {\n\t\t\t\tvalue = valueCache.intVal\n\t\t\t}",
     "C04-R13|config.GetAsString ~ config.GetAsInt")
+
+# ---- round 6 (seeded changes -f1/-f2, free sites) -----------------------------------------
+def r6(prop, name, seed, expect):
+    from_patch(prop, name, seed, expect, comment="round-6 seed " + seed)
+r6("C03", "r12-putnew-replaces-meta", "C03-f2", "C03-R12|database / metadata object never replaced")
+r6("C09", "r12-decompress-through-limitreader", "C09-f1", "C09-R12|formats/dsd / no size-capped reads")
+r6("C11", "r12-tokenizer-unicode-space", "C11-f1", "C11-R12|database/query.extractSnippets / characters classified by comparison only")
+r6("C11", "r13-list-entries-trimmed", "C11-f2", "C11-R13|database/query.newStringSliceCondition")
+r6("C15", "r10-microtask-result-not-named", "C15-f1", "C15-R10|modules.(*Module).runMicroTask")
+r6("C17", "r10-zip-member-not-truncated", "C17-f2", "C17-R10|updater.copyFromZipArchive / os.OpenFile flags")
+r6("C20", "r8-writer-error-shadowed", "C20-f1", "C20-R8|log.writer$1")
+mut("C11", "r12-tokenizer-splits-on-comma", "database/query/parser.go",
+    "\t\tcase '\\t', '\\n', '\\r', ' ', '(', ')':", "\t\tcase '\\t', '\\n', '\\r', ' ', ',', '(', ')':", "C11-R12|database/query.extractSnippets / separators are quoted by the printer")
